@@ -15,6 +15,7 @@ import GbVerif.Proofs.X86SimMoves
 import GbVerif.Proofs.X86SimAlu3
 import GbVerif.Proofs.X86SimCb
 import GbVerif.Proofs.X86SimBit
+import GbVerif.Proofs.X86SimAdc
 /-!
 C01 — translated blocks have the same architectural effect as the interpreter.
 (Structural facts first; the x86 model and per-template simulation lemmas are added by `Proofs/X86*.lean`.)
@@ -364,7 +365,7 @@ example : (match decodeCode (Gen.emitOp 0xc5) with
 encoding `b0` with operand bytes `b1 b2` ends in a host state related to the register file `Interp.runOp` produces from
 `g` (cycles included), with the bus, the host stack and the status byte untouched.  The statement for ALL register-only
 encodings is `RegisterSimulation`; it is PROVED for the register-transfer family (70 encodings) and for the 8-bit
-arithmetic and logic on A with a register or immediate operand, flags included (48 encodings), and RES / SET b,r of the
+arithmetic and logic on A with a register or immediate operand, flags included (48 encodings; ADC / SBC: 16 more, `SimulatesF`), and RES / SET b,r of the
 CB page (112 encodings: `SimulatesCb`) and BIT b,r (56 encodings: `SimulatesCbF`), and otherwise carried by the
 native differential and the exhaustive `c01.grid`. -/
 
@@ -415,6 +416,17 @@ leaves 0 or 0x80 there -/
 theorem simulation_bit_partial : ∀ (b : Fin 8) (r : Reg8) (b2 : Nat), SimulatesCbF (opcodeBit b r) b2 := sim_bit
 
 example : opcodeBit 7 .H = 0x7c := by decide
+
+
+/-- **simulation_carry_partial**: ADC A,r / SBC A,r for the seven registers and ADC A,n / SBC A,n for every operand byte
+(16 encodings) — result and flags, with the guest's carry carried into the host's CF by `and al,0x10 ; add al,0xf0` —
+for all states whose F has a clear low nibble -/
+theorem simulation_carry_partial :
+    (∀ r b1 b2, SimulatesF (opcodeAdc r) b1 b2 ∧ SimulatesF (opcodeSbc r) b1 b2) ∧
+    (∀ b1 b2, b1 < 256 → SimulatesF 0xce b1 b2 ∧ SimulatesF 0xde b1 b2) :=
+  ⟨fun r b1 b2 => ⟨sim_adc r b1 b2, sim_sbc r b1 b2⟩, fun b1 b2 hb => ⟨sim_ce b1 b2 hb, sim_de b1 b2 hb⟩⟩
+
+example : opcodeAdc .C = 0x89 ∧ opcodeSbc .A = 0x9f := by decide
 
 /-- the opcodes covered are the SM83's: LD B,C = 0x41, LD A,n = 0x3E, LD SP,nn = 0x31, DEC HL = 0x2B -/
 example : opcodeLd8 .B .C = 0x41 ∧ opcodeLdI .A = 0x3e ∧ opcodeLd16 .SP = 0x31 ∧ opcodeDec16 .HL = 0x2b := by decide
